@@ -1,7 +1,12 @@
-(* C13/Props.v — the property theorems.  Nothing else. *)
+(* C13/Props.v — the property theorems of C13 (CFF structures and numbers
+   survive write/read).  Nothing else: every proof is an instantiation of a
+   lemma of Proofs_*.v. *)
 From Coq Require Import List NArith ZArith Bool Arith Lia.
 From Common Require Import Bytes Outcome.
-From C13 Require Import Model Util Proofs_index.
+From Gen Require Import C13.
+From C13 Require Import Model Util ModelDict ModelTables ModelLayout Spec.
+From C13 Require Import Proofs_index Proofs_dict Proofs_real Proofs_charset Proofs_fdselect
+  Proofs_encoding Proofs_layout Proofs_width Proofs_misc.
 Import ListNotations.
 Local Open Scope N_scope.
 
@@ -50,8 +55,6 @@ Proof. exact index_read_fast_eq. Qed.
 Print Assumptions index_read_fast_correct.
 
 (* ---------- DICT integer operands ---------- *)
-From Gen Require Import C13.
-From C13 Require Import ModelDict Proofs_dict.
 Local Open Scope Z_scope.
 
 (* Every int32 written by the encoder translated from cffDict.encode is read
@@ -86,7 +89,6 @@ Proof. exact offs_size_spec. Qed.
 Print Assumptions offs_size_minimal.
 
 (* ---------- charset, encoding, FDSelect ---------- *)
-From C13 Require Import ModelTables Proofs_charset Proofs_fdselect Proofs_encoding.
 Local Open Scope N_scope.
 
 (* Every list of 16-bit identifiers (SIDs or CIDs) starting with 0 for
@@ -100,6 +102,22 @@ Theorem charset_roundtrip :
       forall tail, M_charset_read (Z.of_nat (S (length ns))) (bs ++ tail) = Ok (0 :: ns, tail).
 Proof. exact charset_roundtrip_gen. Qed.
 Print Assumptions charset_roundtrip.
+
+(* The selection rule of encodeCharset picks a shortest of the three formats:
+   the length written is the minimum of the lengths of formats 0, 1 and 2
+   (format 0 on ties, then format 2 unless format 1 is strictly shorter). *)
+Theorem charset_format_shortest :
+  forall (ns bs : list N),
+    Forall (fun x => x < 65536) ns ->
+    M_charset_encode (0%Z :: map Z.of_N ns) = Ok bs ->
+    let names := map Z.of_N ns in
+    let l0 := cs_length0 names in
+    let l1 := cs_length1 (M_runs names) in
+    let l2 := cs_length2 (M_runs names) in
+    lenN bs = N.min l0 (N.min l1 l2) /\
+    (nth 0 bs 0 = 0 -> lenN bs = l0) /\ (nth 0 bs 0 = 1 -> lenN bs = l1) /\ (nth 0 bs 0 = 2 -> lenN bs = l2).
+Proof. exact charset_format_shortest_gen. Qed.
+Print Assumptions charset_format_shortest.
 
 (* readCharset is total: never a panic, the loop needs at most nGlyphs
    rounds, and an accepted charset has exactly nGlyphs entries. *)
@@ -162,7 +180,6 @@ Proof. exact fdselect_read_total_gen. Qed.
 Print Assumptions fdselect_read_total.
 
 (* ---------- DICT reals ---------- *)
-From C13 Require Import Proofs_real.
 Local Open Scope Z_scope.
 
 (* For every sign, every non-empty digit string d1..dm (any m, in particular
@@ -190,7 +207,6 @@ Qed.
 Print Assumptions dict_real_value.
 
 (* ---------- the offset loop of Font.Write ---------- *)
-From C13 Require Import ModelLayout Proofs_layout Proofs_width.
 Local Open Scope N_scope.
 
 (* For every list of sections whose layout operands refer to existing
@@ -256,7 +272,6 @@ Proof. exact width_old_refuted. Qed.
 Print Assumptions width_recovered_refuted.
 
 (* ---------- predefined charsets; the DICT decoder as a whole ---------- *)
-From C13 Require Import Spec Proofs_misc.
 Local Open Scope N_scope.
 
 (* The glyph-name tables of the three predefined charsets in cff/charset.go,
